@@ -116,6 +116,7 @@ struct Tr {
     fw_mark: u32,
     /// a send syscall of this worker failed (it may legitimately give up at once)
     send_failed: bool,
+    disk_failed: bool,
 }
 
 pub struct XferMon {
@@ -265,6 +266,7 @@ impl XferMon {
                 recvs_since_burst: 0,
                 fw_mark: self.fault_weight,
                 send_failed: false,
+                disk_failed: false,
             },
         );
         true
@@ -467,6 +469,7 @@ impl XferMon {
                     }
                     if d > 0 {
                         t.fw_mark = fw_now;
+                        t.fails_in_window = 0;
                     }
                     t.acked_last = k;
                     t.since_ack = 0;
@@ -716,6 +719,22 @@ impl XferMon {
                     Err(e) => viol = Some(("final_file_mismatch".into(), format!("after the final ACK the stored file cannot be read: {e}"))),
                 }
             }
+            // the retry budget itself: a worker gives up only after six failed receive attempts since its
+            // last progress (counted here at least as generously as the code counts them)
+            let data_phase = match kind {
+                Kind::Download => t.sent_any,
+                Kind::Upload => true,
+            };
+            if (rules.c04 || rules.c07) && viol.is_none() && !ended_ok && panic.is_none() && data_phase && only_worker_of_client && !t.error_seen && !t.send_failed && !t.disk_failed
+                && matches!(t.last_recv, LastRecv::Timeout | LastRecv::Err | LastRecv::Other)
+                && t.fails_in_window < 6
+                && (kind == Kind::Download || t.fs_cleanup_seen)
+            {
+                viol = Some((
+                    "gave_up_below_retry_budget".into(),
+                    format!("task{task} ({kind:?}) gave up after {} failed receive attempts since its last progress; the retry budget is 6 (last receive {:?})", t.fails_in_window, t.last_recv),
+                ));
+            }
             if rules.c04 && viol.is_none() && spec.conformant && !ended_ok {
                 // the one permitted exception: the very last ACK was lost and its sender does not dally
                 let peer_done = match kind {
@@ -834,7 +853,14 @@ impl Monitor for XferMon {
                 }
             }
             // a failing disk excuses any failure of the transfer (never a wrong acknowledgement)
-            Ev::DiskWrite { fault: Some(_), .. } => self.fault_weight += 100,
+            Ev::DiskWrite { fault: Some(_), task, .. } => {
+                self.fault_weight += 100;
+                if let Actor::Task(t) = task {
+                    if let Some(tr) = self.tr.get_mut(t) {
+                        tr.disk_failed = true;
+                    }
+                }
+            }
             Ev::Stall { .. } => self.fault_weight += 4 + self.specs.iter().map(|s| s.timeout_ratio).max().unwrap_or(1).max(1),
             Ev::RecvRet { res: crate::world::RecvRes::Err(std::io::ErrorKind::Interrupted), .. } => self.fault_weight += 1,
             Ev::End { task, panic } => return self.on_end(w, *task, panic),
